@@ -37,7 +37,7 @@ def drive(ctx):
         return mk_dt(UTCZ, [d.year, d.month, d.day, d.hour, d.minute, d.second, d.microsecond], 0)
 
     for loc in ctx.mine(locs):
-        ctx.emit("locale_tables", {"locale": loc})
+        ctx.emit("locale_tables", {"locale": loc, "scope": "plural"})
     work = []
     for loc in locs:
         for unit in UNITS:
